@@ -89,7 +89,8 @@ def get_fs(waterfall):
     df = waterfall.header['foff']
     fchans = waterfall.header['nchans']
 
-    return np.arange(fch1, fch1 + fchans * df, df)
+    # (np.arange with a float step may return one element too many)
+    return fch1 + np.arange(fchans) * df
 
 
 def get_ts(waterfall):
@@ -114,4 +115,4 @@ def get_ts(waterfall):
     tsamp = waterfall.header['tsamp']
     tchans = waterfall.container.selection_shape[0]
 
-    return np.arange(0, tchans * tsamp, tsamp)
+    return np.arange(tchans) * tsamp
